@@ -41,7 +41,10 @@ def _mk_spendable(sp, i, seed):
     """-> (argument passed to create_tx, (value, script, tx_hash, index))"""
     value, form, index = sp["value"], sp["form"], sp["index"]
     tx_hash = _h("prev", seed, i)
-    script = refvalue.p2pkh(_h("owner", seed, i)[:20])[1] if sp["script"] == "p2pkh" else _h("scr", seed, i)[:sp["script"]]
+    if sp["script"] == "ring":
+        script = _ring_key(i % 3)[1]
+    else:
+        script = refvalue.p2pkh(_h("owner", seed, i)[:20])[1] if sp["script"] == "p2pkh" else _h("scr", seed, i)[:sp["script"]]
     ident = (value, script, tx_hash, index)
     if form == "obj":
         return Tx.Spendable(value, script, tx_hash, index), ident
@@ -52,10 +55,30 @@ def _mk_spendable(sp, i, seed):
     return {"coin_value": value, "script_hex": script.hex(), "tx_hash_hex": tx_hash[::-1].hex(), "tx_out_index": index}, ident
 
 
+_RING = {}
+
+
+def _ring_key(j):
+    """(wif, p2pkh script) of secret exponent j + 1, computed without pycoin"""
+    if j not in _RING:
+        import hashlib
+        from oracles import refec, refenc
+        C = refec.SECP256K1
+        x, y = C.mul(j + 1, C.G)
+        sec = refenc.sec_encode(x, y, True)
+        h160 = hashlib.new("ripemd160", hashlib.sha256(sec).digest()).digest()
+        _RING[j] = (refenc.b58check_encode(b"\x80" + (j + 1).to_bytes(32, "big") + b"\x01"), refvalue.p2pkh(h160)[1])
+    return _RING[j]
+
+
 def o_create(case):
     seed = case["seed"]
+    signed = case.get("route") == "signed"
     args, idents = [], []
     for i, sp in enumerate(case["spendables"]):
+        if signed:
+            # create_signed_tx: every input must be signable, so the spent scripts pay to keys whose WIFs are supplied
+            sp = dict(sp, script="ring")
         a, ident = _mk_spendable(sp, i, seed)
         args.append(a)
         idents.append(ident)
@@ -88,8 +111,12 @@ def o_create(case):
                       "R=k" if r_total == k else "R=k+1" if r_total == k + 1 else "R>k+1")
         if r_total >= k:
             labels.append("rem=0" if r_total % k == 0 else "rem>0")
+    labels.append("route=" + ("create_signed_tx" if signed else "create_tx"))
     try:
-        tx = BTC.tx_utils.create_tx(args, payables, fee=fee)
+        if signed:
+            tx = BTC.tx_utils.create_signed_tx(args, payables, wifs=[_ring_key(j)[0] for j in range(3)], fee=fee)
+        else:
+            tx = BTC.tx_utils.create_tx(args, payables, fee=fee)
     except ValueError as ex:
         if want is not None and k > 0:
             _bad("create_tx:raises-with-sufficient-funds", "%s: ValueError(%s)" % (where, ex))
@@ -171,7 +198,10 @@ def s_create(draw):
     sp_form = st.sampled_from(["obj", "text4", "text7", "dict", "obj"])
     spendables = [{"value": v, "form": draw(sp_form), "index": draw(st.one_of(st.integers(0, 3), st.integers(0, 2 ** 32 - 1))),
                    "script": draw(st.sampled_from(["p2pkh", "p2pkh", 0, 1, 25, 32]))} for v in order]
-    return {"seed": draw(st.integers(0, 10 ** 6)), "spendables": spendables, "payables": payables, "fee": fee}
+    case = {"seed": draw(st.integers(0, 10 ** 6)), "spendables": spendables, "payables": payables, "fee": fee}
+    if draw(st.integers(0, 5)) == 0:
+        case["route"] = "signed"
+    return case
 
 
 # ------------------------------------------------------------------ validate_unspents
@@ -413,7 +443,7 @@ def s_convert():
 SUBCHECKS = [
     SubCheck("create_tx_split", o_create, strategy=s_create, budget=(5000, 600000), nontrivial=nt_create,
              rule="1-10 spendables (values 1..21e14 built to hit a target R; objects / as_text text / as_dict dicts), 1-8 payables mixing "
-                  "fixed amounts, bare addresses and (address, 0), fee >= 0; targets: R in {k-1,k,k+1}, every remainder class q*k+r, "
+                  "fixed amounts, bare addresses and (address, 0), fee >= 0; built through create_tx or (1 case in 6, inputs then paying to three known keys) create_signed_tx with the WIFs; targets: R in {k-1,k,k+1}, every remainder class q*k+r, "
                   "short (R<k incl. negative), free; model = refvalue.split; also fee()/total_in()/total_out(), unspents[i]/txs_in[i] "
                   "pairing; non-trivial = k>=2 with R mod k != 0, or R in {k-1,k,k+1}"),
     SubCheck("validate_unspents", o_validate, strategy=s_validate, budget=(4000, 300000),
